@@ -152,3 +152,9 @@ theorem readToken_progress (rest : Bytes) (c : Cur) : (readToken rest c).progres
   readTokenBody_progress _ _ _ (ws_len rest c)
 
 end Gql.Lexer
+
+namespace Gql.Lexer
+@[simp] theorem punct_quote : punct 34 = none := by decide
+@[simp] theorem punct_backslash : punct 92 = none := by decide
+@[simp] theorem punct_newline : punct 10 = none := by decide
+end Gql.Lexer
